@@ -64,10 +64,11 @@ def run(repo: Repo, rep: Report):
     meta = repo["svg_meta"]
     rep.rule("R-REGEX.float-lang", "L(_FLOAT_RE) vs SVG number grammar; tokenizer model vs maximal munch")
     rep.rule("R-REGEX.greedy-longest", "token regexes are 1-unambiguous and greedy, so re.match returns the longest prefix")
-    rep.rule("R-GUARD.tokenizer", "every yield of _parse_args is converter(slice of a checked anchored match); remainder re-scanned")
+    rep.rule("R-GUARD.tokenizer", "parse_svg_path interpreted on a corpus generated from the path grammar (and strings with stray characters): result equals the grammar reading, or ValueError")
+    rep.rule("R-CASE.roundtrip", "SVGPath.from_commands interpreted on command sequences: reading the path back gives the same commands")
     rep.rule("R-TABLE.arity", "_CMD_ARGS/_CMD_RE/_IMPLICIT_REPEAT_CMD/_ARC_ARGUMENT_TYPES equal the specification tables")
     rep.rule("R-CASE.check_cmd", "check_cmd, _explode_cmd specialised per letter and argument count")
-    rep.rule("R-EFFECT.exceptions", "only ValueError raised in the closure of parse_svg_path; no swallowing handler; indices in range")
+    rep.rule("R-EFFECT.exceptions", "only ValueError escapes parse_svg_path on the corpus; only ValueError raised in its closure; no swallowing handler; table lookups guarded")
     rep.rule("R-CASE.printer", "ntos prints repr or int; path_segment separates numbers; printer language within parser language")
 
     # ---------------------------------------------------------------- lexical level
@@ -191,8 +192,10 @@ def run(repo: Repo, rep: Report):
     else:
         rep.ok("R-TABLE.arity", "svg_path_iter._ARC_ARGUMENT_TYPES = n n n flag flag n n")
 
-    # ---------------------------------------------------------------- tokenizer loop discipline
-    _check_parse_args(repo, rep, folder)
+    # ---------------------------------------------------------------- the parser itself, interpreted on a grammar-derived corpus
+    from sa.rules import semparse
+    semparse.check_parser(repo, rep, "R-GUARD.tokenizer", "R-EFFECT.exceptions")
+    semparse.check_command_roundtrip(repo, rep, "R-CASE.roundtrip")
 
     # ---------------------------------------------------------------- check_cmd / _explode_cmd per letter
     chk = closure_of(repo, "svg_meta", "check_cmd")
@@ -248,164 +251,8 @@ def run(repo: Repo, rep: Report):
     else:
         rep.ok("R-CASE.check_cmd", "svg_path_iter._explode_cmd", f"{n_cases} cases: first group keeps the letter, later groups use the implicit-repeat letter, arguments partitioned in order", True)
 
-    _check_parse_svg_path(repo, rep, res)
     _check_exceptions(repo, rep, res)
     _check_printer(repo, rep, folder, dP, dR, al, cP)
-
-
-# ----------------------------------------------------------------------------------------
-def _check_parse_args(repo: Repo, rep: Report, folder: Folder):
-    spi = repo["svg_path_iter"]
-    fn = spi.func("_parse_args")
-    rep.saw("svg_path_iter._parse_args")
-    F = "svg_path_iter._parse_args"
-    # facts
-    match_vars = {}  # name -> (regex expr, subject expr)
-    span_vars = {}   # (start,end) names -> match var
-    for n in walk_no_nested(fn):
-        if isinstance(n, ast.Assign) and isinstance(n.value, ast.Call) and isinstance(n.value.func, ast.Attribute):
-            c = n.value
-            if c.func.attr == "match" and len(n.targets) == 1 and isinstance(n.targets[0], ast.Name) and len(c.args) == 1:
-                match_vars[n.targets[0].id] = (c.func.value, c.args[0])
-            if c.func.attr == "span" and isinstance(c.func.value, ast.Name) and isinstance(n.targets[0], ast.Tuple) \
-                    and len(n.targets[0].elts) == 2:
-                span_vars[tuple(e.id for e in n.targets[0].elts if isinstance(e, ast.Name))] = c.func.value.id
-    yields = [n for n in walk_no_nested(fn) if isinstance(n, (ast.Yield, ast.YieldFrom))]
-    rep.floor("yield statements in _parse_args", len(yields), 1)
-    # (a) every yield is converter(subject[start:end]) with (start,end) = m.span(), m a match of subject
-    for y in yields:
-        ok = False
-        why = "yield is not converter(<match slice>)"
-        v = y.value
-        if isinstance(y, ast.Yield) and isinstance(v, ast.Call) and len(v.args) == 1 and isinstance(v.args[0], ast.Subscript) \
-                and isinstance(v.args[0].slice, ast.Slice):
-            sub = v.args[0]
-            lo, hi = sub.slice.lower, sub.slice.upper
-            names = (getattr(lo, "id", None), getattr(hi, "id", None))
-            mv = span_vars.get(names)
-            if mv and mv in match_vars and unparse(match_vars[mv][1]) == unparse(sub.value):
-                ok = True
-            elif mv is None and isinstance(hi, ast.Call) and unparse(hi).endswith(".end()"):
-                mvn = unparse(hi)[: -len(".end()")]
-                ok = mvn in match_vars and unparse(match_vars[mvn][1]) == unparse(sub.value) and lo is None
-            if not ok:
-                why = "yielded slice bounds do not come from span() of a match on the same string"
-        if ok:
-            rep.ok("R-GUARD.tokenizer", f"{F}: {unparse(y)}", "value is converter(arg[start:end]) of m.span()", True)
-        else:
-            rep.fail("R-GUARD.tokenizer", F, y, f"{why}: a token not validated by an anchored match reaches the result "
-                     "(malformed input would be accepted silently)", spi, y)
-    # (b) failed match raises ValueError: an `if not m` (or `m is None`) whose body raises ValueError, for every match var
-    for mv, (rx, subj) in match_vars.items():
-        guarded = False
-        for n in walk_no_nested(fn):
-            if isinstance(n, ast.If):
-                t = unparse(n.test)
-                if t in (f"not {mv}", f"{mv} is None") and any(isinstance(s, ast.Raise) and "ValueError" in unparse(s) for s in n.body):
-                    guarded = True
-        if guarded:
-            rep.ok("R-GUARD.tokenizer", f"{F}: failed {mv} = {unparse(rx)}.match(..) raises ValueError", "", True)
-        else:
-            rep.fail("R-GUARD.tokenizer", F, f"{mv} = {unparse(rx)}.match({unparse(subj)})",
-                     "no `if not m: raise ValueError` guards this match: a non-matching remainder is not rejected", spi, fn)
-    if not match_vars:
-        rep.fail("R-GUARD.tokenizer", F, "regex.match(arg)", "tokenizer no longer takes tokens with an anchored `match`", spi, fn)
-    # (c) the regex used is selected by arg_types[i % n] with n = len(arg_types)
-    wraps = [n for n in walk_no_nested(fn) if isinstance(n, ast.Subscript) and isinstance(n.slice, ast.BinOp)
-             and isinstance(n.slice.op, ast.Mod)]
-    ok_wrap = False
-    for wnode in wraps:
-        base, mod = unparse(wnode.value), unparse(wnode.slice.right)
-        for a in walk_no_nested(fn):
-            if isinstance(a, ast.Assign) and unparse(a.targets[0]) == mod and unparse(a.value) == f"len({base})":
-                ok_wrap = True
-    if ok_wrap:
-        rep.ok("R-GUARD.tokenizer", f"{F}: argument type index wraps modulo len(arg_types)")
-    else:
-        rep.fail("R-GUARD.tokenizer", F, "arg_types[i % n]", "argument typing does not wrap modulo the length of the type tuple "
-                 "(repeated arc argument groups would be mistyped)", spi, fn)
-    # (d) remainder handling: if end < len(arg): raw_args[j] = arg[end:]  else j += 1
-    rem_ok = False
-    for n in walk_no_nested(fn):
-        if isinstance(n, ast.If) and isinstance(n.test, ast.Compare) and len(n.test.ops) == 1:
-            t = unparse(n.test)
-            body, orelse = "\n".join(unparse(s) for s in n.body), "\n".join(unparse(s) for s in n.orelse)
-            for (s, e), mv in span_vars.items():
-                subj = unparse(match_vars[mv][1]) if mv in match_vars else None
-                if subj and t in (f"{e} < len({subj})", f"len({subj}) > {e}") and f"{subj}[{e}:]" in body and "+= 1" in orelse:
-                    rem_ok = True
-                if subj and t in (f"{e} == len({subj})", f"{e} >= len({subj})") and f"{subj}[{e}:]" in orelse and "+= 1" in body:
-                    rem_ok = True
-    if rem_ok:
-        rep.ok("R-GUARD.tokenizer", f"{F}: unconsumed remainder replaces the token, index advances only when exhausted", "", True)
-    else:
-        rep.fail("R-GUARD.tokenizer", F, "if end < len(arg): raw_args[j] = arg[end:]",
-                 "the remainder of a partially matched token is not re-scanned (characters would be dropped silently)", spi, fn)
-    # (e) arc typing selected for exactly a/A
-    sel = None
-    for n in walk_no_nested(fn):
-        if isinstance(n, ast.If) and any("_ARC_ARGUMENT_TYPES" in unparse(s) for s in n.body + n.orelse):
-            sel = n
-    if sel is None:
-        rep.fail("R-GUARD.tokenizer", F, "_ARC_ARGUMENT_TYPES", "arc argument typing is no longer selected by a test on the command", spi, fn)
-    else:
-        it = Interp(repo)
-        arc_letters = []
-        for letter in spec.LETTERS:
-            t = it.decide(it.eval(sel.test, {"__mod__": spi, "cmd": letter}))
-            in_body = any("_ARC_ARGUMENT_TYPES" in unparse(s) for s in sel.body)
-            if t == in_body:
-                arc_letters.append(letter)
-        if sorted(arc_letters) != ["A", "a"]:
-            rep.fail("R-GUARD.tokenizer", F, sel.test, f"arc (flag) typing is applied to {sorted(arc_letters)}, must be exactly a/A", spi, sel)
-        else:
-            rep.ok("R-GUARD.tokenizer", f"{F}: arc typing for exactly a/A", "test specialised over the 20 letters", True)
-
-
-def _check_parse_svg_path(repo: Repo, rep: Report, res: Resolver):
-    spi = repo["svg_path_iter"]
-    fn = spi.func("parse_svg_path")
-    F = "svg_path_iter.parse_svg_path"
-    rep.saw(F)
-    src_calls = [call_name(c) for c in ast.walk(fn) if isinstance(c, ast.Call)]
-    # parts = _CMD_RE.split(svg_path)[1:], stepped by 2, indices i and i+1 only
-    parts_ok = False
-    for n in walk_no_nested(fn):
-        if isinstance(n, ast.Assign) and isinstance(n.value, ast.Subscript) and isinstance(n.value.slice, ast.Slice):
-            v = n.value
-            if isinstance(v.value, ast.Call) and call_name(v.value) == "_CMD_RE.split" and unparse(v.slice) == "1:":
-                pname = unparse(n.targets[0])
-                loops = [l for l in walk_no_nested(fn) if isinstance(l, ast.For) and unparse(l.iter) == f"range(0, len({pname}), 2)"]
-                subs = {unparse(s.slice) for s in ast.walk(fn) if isinstance(s, ast.Subscript) and unparse(s.value) == pname}
-                if loops and subs <= {loops[0].target.id, f"{loops[0].target.id} + 1"}:
-                    parts_ok = True
-    if parts_ok:
-        rep.ok("R-EFFECT.exceptions", f"{F}: parts[i], parts[i+1] in range", "split with one capture group minus its head has even length; loop steps by 2", True)
-    else:
-        rep.fail("R-EFFECT.exceptions", F, "parts = _CMD_RE.split(svg_path)[1:]; for i in range(0, len(parts), 2)",
-                 "command/argument pairing no longer has the shape that keeps parts[i + 1] in range (IndexError could escape, or "
-                 "text before the first command is no longer dropped consistently)", spi, fn)
-    # every command is validated
-    if "svg_meta.check_cmd" in src_calls or "check_cmd" in src_calls:
-        rep.ok("R-EFFECT.exceptions", f"{F}: check_cmd applied to every parsed command")
-    else:
-        rep.fail("R-EFFECT.exceptions", F, "svg_meta.check_cmd(cmd, args)", "arity validation is no longer called for parsed commands", spi, fn)
-    # explode only when arity > 0 and exploded
-    ok = False
-    for n in walk_no_nested(fn):
-        if isinstance(n, ast.If):
-            t = unparse(n.test)
-            in_else = any("_explode_cmd" in unparse(s) for s in n.orelse)
-            in_body = any("_explode_cmd" in unparse(s) for s in n.body)
-            if in_else and "== 0" in t and "not exploded" in t and " or " in t:
-                ok = True
-            if in_body and ("!= 0" in t or "> 0" in t) and "exploded" in t and " and " in t:
-                ok = True
-    if ok:
-        rep.ok("R-EFFECT.exceptions", f"{F}: zero-arity commands are never exploded; explosion only when requested")
-    else:
-        rep.fail("R-EFFECT.exceptions", F, "if args_per_cmd == 0 or not exploded", "guard around _explode_cmd changed: z/Z would divide "
-                 "by zero or non-exploded parsing would explode", spi, fn)
 
 
 def _check_exceptions(repo: Repo, rep: Report, res: Resolver):
@@ -552,16 +399,18 @@ VARIANTS = [
     Variant("printed pairs joined with nothing", [Edit("svg_meta", "path_segment", 'f"{sub_args[i]},{sub_args[i+1]}"', 'f"{sub_args[i]}{sub_args[i+1]}"')],
             [("R-CASE.printer", "path_segment")]),
     Variant("failed match no longer raises", [Edit(_SPI, "_parse_args", "raise ValueError(f\"Invalid argument #{i} for '{cmd}': {arg!r}\")", "break")],
-            [("R-GUARD.tokenizer", "_parse_args")]),
+            [("R-GUARD.tokenizer", "parse_svg_path")]),
     Variant("remainder dropped", [Edit(_SPI, "_parse_args", "if end < len(arg):\n            raw_args[j] = arg[end:]\n        else:\n            j += 1", "j += 1")],
-            [("R-GUARD.tokenizer", "_parse_args")]),
+            [("R-GUARD.tokenizer", "parse_svg_path")]),
     Variant("ntos prints fixed notation", [Edit("svg_meta", "ntos", "else str(n)", 'else f"{n:f}"')],
             [("R-CASE.printer", "ntos")]),
     Variant("flags may be any digit", [Edit(_SPI, None, '_BOOL_RE = re.compile("^[01]")', '_BOOL_RE = re.compile("^[0-9]")')],
             [("R-REGEX", "_BOOL_RE")]),
     Variant("arity of t changed", [Edit("svg_meta", None, '"t": 2,', '"t": 4,')], [("R-TABLE.arity", "_CMD_ARGS"), ("R-", "check_cmd")]),
     Variant("zero-arity commands exploded", [Edit(_SPI, "parse_svg_path", "if args_per_cmd == 0 or not exploded:", "if not exploded:")],
-            [("R-EFFECT.exceptions", "parse_svg_path")]),
+            [("R-", "parse_svg_path")]),
+    Variant("update_path drops a moveto followed by a moveto", [Edit("svg_types", "SVGPath.update_path", "        for cmd, args in svg_cmds:\n            target._add_cmd(cmd, *args)", "        prev = None\n        for cmd, args in svg_cmds:\n            if prev is not None and not (prev[0] in 'Mm' and cmd in 'Mm'):\n                target._add_cmd(*prev[0:1], *prev[1])\n            prev = (cmd, args)\n        if prev is not None:\n            target._add_cmd(prev[0], *prev[1])")], [("R-CASE.roundtrip", "from_commands")]),
+    Variant("stray characters skipped by the tokenizer", [Edit(_SPI, "_parse_args", "raw_args = [s for s in _SEPARATOR_RE.split(args) if s]", "raw_args = [s for s in re.split(r'[^0-9eE.+-]+', args) if s]")], [("R-GUARD.tokenizer", "parse_svg_path")]),
     Variant("silent: rename loop variable", [Edit(_SPI, "_explode_cmd", "cmds = []", "cmds = list()")], silent=True),
     Variant("silent: reorder arity table entries", [Edit("svg_meta", None, '    "m": 2,\n    "z": 0,', '    "z": 0,\n    "m": 2,')], silent=True),
 ]
